@@ -398,7 +398,8 @@ class World:
         self.u = Vec(self.u0)
         self.du = Vec(self.du0)
         self.system = Obj('system', _has_bounds=has_bounds, _outputs=self.u, _doutputs=self.du,
-                          under_complex_step=False, pathname='', _owns_approx_jac=False,
+                          under_complex_step=False, under_finite_difference=False, under_approx=False,
+                          pathname='', _owns_approx_jac=False,
                           _residuals=Vec([0] * self.n), _dresiduals=Vec([0] * self.n),
                           hooks={'_apply_nonlinear': noop, '_linearize': noop, '_solve_nonlinear': noop})
         opts = {'bound_enforcement': lit, 'print_bound_enforce': False, 'iprint': -1, 'debug_print': False,
@@ -435,11 +436,18 @@ class World:
         if self.applies in self.raise_at:
             raise PyExc('AnalysisError', 'scripted', node)
 
+    def set_mode(self, fd):
+        """Finite-difference re-solve: System.under_approx is under_complex_step or under_finite_difference."""
+        self.system.attrs.update(under_finite_difference=bool(fd), under_approx=bool(fd))
+        self.fd = bool(fd)
+
     def describe(self):
         return (f" [bound_enforcement='{self.lit}', start u={fmt(self.u0)}, Newton step du={fmt(self.du0)}, "
                 f'alpha={fmt(self.alpha0)}, lower={fmt(self.lower) if self.lower is not None else None}, '
                 f'upper={fmt(self.upper) if self.upper is not None else None}' +
-                (f'; both arrays are None after _setup_solvers when: {self.route}' if self.route else '') + ']')
+                (f'; both arrays are None after _setup_solvers when: {self.route}' if self.route else '') +
+                ('; the system is being finite-differenced (under_finite_difference=True, under_complex_step=False)'
+                 if getattr(self, 'fd', False) else '') + ']')
 
     def check_point(self, vals, label, key, fn=None, bounds=True):
         for i, v in enumerate(vals):
@@ -809,7 +817,8 @@ def _newton_obj(w, linesearch, step):
 
 @rule('C10.newton', floor=4)
 def newton(repo, out):
-    """NewtonSolver applies exactly one update per iteration, through the line search when there is one, and sets it up."""
+    """NewtonSolver applies exactly one update per iteration, through the line search when there is one (also while the
+    system is finite-differenced; only complex step may bypass it), and sets it up."""
     fn = repo.func(NEWTON, 'NewtonSolver._single_iteration')
     _, _, lits, _ = declared_literals(repo)
     for cls in ('BoundsEnforceLS', 'ArmijoGoldsteinLS', None):
@@ -832,14 +841,17 @@ def newton(repo, out):
                     w = World(repo, cls or 'BoundsEnforceLS', lit, case['u0'], case['du'], case['lower'],
                               case['upper'], case['alpha'], norms=[100, 100, 0])
                     w.du.data.setvals([Fr(0)] * w.n)
+                    w.set_mode(fd=(k % 3 == 2))
+                    pre = 'fd-' if w.fd else ''
                     nw = _newton_obj(w, w.ls if cls else None, case['du'])
                     try:
                         w.it.call_func(fn, [], {}, bound=nw)
                     except Fail:
                         return   # line-search internals: C10.kernel / C10.placement
                     if cls and w.enforced == 0 and w.applies == 0:
-                        raise Fail('linesearch-not-run', 'the line search is configured but was not run' + w.describe())
-                    w.check_point(w.u.vals(), 'after NewtonSolver._single_iteration', 'newton')
+                        raise Fail(pre + 'linesearch-not-run', 'the line search is configured but was not run: the '
+                                   'Newton update is applied unfiltered' + w.describe())
+                    w.check_point(w.u.vals(), 'after NewtonSolver._single_iteration', pre + 'newton')
                     if cls is None:
                         want = [a + b for a, b in zip(w.u0, w.du0)]
                         if w.u.vals() != want:
@@ -1113,6 +1125,8 @@ selftest(
     Mutant('mono-wrong-map', BT, 'bnd0 = (var_lower - ref0) / (ref - ref0)', 'bnd0 = (var_lower - ref0) / ref', 'C10.mono'),
     Mutant('mono-upper-default', BT, '                    var_upper = np.inf', '                    var_upper = -np.inf',
            'C10.mono'),
+    Mutant('seed2-one-sided-bounds-skipped', BT, 'if var_lower is None and var_upper is None:',
+           'if var_lower is None or var_upper is None:', ['C10.mono', 'C10.layout']),
     Mutant('layout-no-start-advance', BT,
            '                if var_lower is None and var_upper is None:\n                    start = end\n                    continue',
            '                if var_lower is None and var_upper is None:\n                    continue', 'C10.layout'),
@@ -1175,7 +1189,7 @@ selftest(
            '        self._norm0 = norm0\n        self._enforce_bounds(step=du, alpha=1.0)\n        u += du', 'C10.placement'),
     Mutant('placement-be-guard-inverted', BT, '        if not system._has_bounds:\n            u += du\n            return',
            '        if system._has_bounds:\n            u += du\n            return', 'C10.placement'),
-    Mutant('placement-ag-wrong-alpha', BT, 'self._enforce_bounds(step=du, alpha=alpha)', 'self._enforce_bounds(step=du, alpha=1.0)',
+    Mutant('seed2-placement-ag-wrong-alpha', BT, 'self._enforce_bounds(step=du, alpha=alpha)', 'self._enforce_bounds(step=du, alpha=1.0)',
            'C10.placement'),
     Mutant('placement-ag-full-step', BT, '        u.add_scal_vec(alpha, du)', '        u.add_scal_vec(1.0, du)', 'C10.placement'),
     Mutant('placement-ag-no-enforce', BT, '        self._enforce_bounds(step=du, alpha=alpha)\n\n        try:', '        try:',
@@ -1192,6 +1206,10 @@ selftest(
            '                self.linesearch.solve()\n            system._outputs += system._doutputs', 'C10.newton'),
     Mutant('newton-linesearch-bypassed', _N, '                self.linesearch._do_subsolve = do_subsolve\n                self.linesearch.solve()',
            '                self.linesearch._do_subsolve = do_subsolve\n                system._outputs += system._doutputs', 'C10.newton'),
+    Mutant('seed2-newton-bypass-under-approx', _N, 'if self.linesearch and not system.under_complex_step:',
+           'if self.linesearch and not system.under_approx:', 'C10.newton'),
+    Mutant('newton-bypass-under-fd', _N, 'if self.linesearch and not system.under_complex_step:',
+           'if self.linesearch and not system.under_complex_step and not system.under_finite_difference:', 'C10.newton'),
     Mutant('newton-setup-not-wired', _N, '            self.linesearch._setup_solvers(system, self._depth + 1)\n\n    def _assembled',
            '            pass\n\n    def _assembled', 'C10.newton'),
     Mutant('newton-no-update', _N, '            else:\n                system._outputs += system._doutputs', '            else:\n                pass',
@@ -1233,6 +1251,8 @@ selftest(
     Twin('twin-ag-alpha-inline', BT, "        self.alpha = alpha = self.options['alpha']", "        alpha = self.options['alpha']\n        self.alpha = alpha"),
     Twin('twin-newton-flipped', _N, '            if self.linesearch and not system.under_complex_step:\n                self.linesearch._do_subsolve = do_subsolve\n                self.linesearch.solve()\n            else:\n                system._outputs += system._doutputs',
          '            if system.under_complex_step or not self.linesearch:\n                system._outputs += system._doutputs\n            else:\n                self.linesearch._do_subsolve = do_subsolve\n                self.linesearch.solve()'),
+    Twin('twin-newton-gate-rewritten', _N, 'if self.linesearch and not system.under_complex_step:',
+         'if self.linesearch and not (system.under_approx and system.under_complex_step):'),
     Twin('twin-flag-nested', _S, "                if metadata['lower'] is not None or metadata['upper'] is not None:\n                    subsys._has_bounds = True",
          "                if metadata['lower'] is not None:\n                    subsys._has_bounds = True\n                elif metadata['upper'] is not None:\n                    subsys._has_bounds = True"),
     Twin('twin-flag-or-assign', _G, '                grp._has_bounds |= subsys._has_bounds\n',
